@@ -74,6 +74,7 @@ type fakeGet struct {
 	failAfter int
 	sent      int
 	stall     time.Duration
+	slow      time.Duration // every Send takes that long (a slow reader)
 }
 
 func (f *fakeGet) Context() context.Context     { return f.ctx }
@@ -84,6 +85,9 @@ func (f *fakeGet) Send(r *spb.GetResponse) error {
 	if f.failAfter >= 0 && f.sent >= f.failAfter {
 		time.Sleep(f.stall)
 		return status.Error(codes.Canceled, "client went away")
+	}
+	if f.slow > 0 {
+		time.Sleep(f.slow)
 	}
 	f.sent++
 	f.items = append(f.items, r.GetEntry()...)
@@ -151,6 +155,19 @@ func (d *Server) DoGetStall(req *spb.GetRequest, failAfter int, stall time.Durat
 		return f.items, err, ""
 	case <-time.After(Watchdog):
 		return nil, nil, fmt.Sprintf("HANG: Get did not return within %v", Watchdog)
+	}
+}
+
+// DoGetSlow reads the whole stream, taking `slow` per response.
+func (d *Server) DoGetSlow(req *spb.GetRequest, slow time.Duration) (items []*spb.AFTEntry, err error, hang string) {
+	f := &fakeGet{ctx: context.Background(), failAfter: -1, slow: slow}
+	done := make(chan error, 1)
+	go func() { done <- d.S.Get(req, f) }()
+	select {
+	case err = <-done:
+		return f.items, err, ""
+	case <-time.After(4 * Watchdog):
+		return nil, nil, fmt.Sprintf("HANG: Get did not return within %v", 4*Watchdog)
 	}
 }
 
@@ -231,7 +248,28 @@ func (x *SRun) Step(st SStep) SObs {
 	case "elect":
 		rs, err = s.SendN(&spb.ModifyRequest{ElectionId: st.ID.Proto()}, 1)
 	case "multi":
-		rs, err = s.SendN(&spb.ModifyRequest{Params: &spb.SessionParameters{Redundancy: 1, Persistence: 1}, ElectionId: &spb.Uint128{Low: 1}}, 1)
+		// more than one of parameters / election id / operations populated: Red != 0, ID, Ops say which
+		// (fewer than two given: parameters + election id 1)
+		m := &spb.ModifyRequest{}
+		n := 0
+		if st.Red != 0 {
+			m.Params = &spb.SessionParameters{Redundancy: spb.SessionParameters_ClientRedundancy(st.Red), Persistence: spb.SessionParameters_AFTPersistence(st.Pers)}
+			n++
+		}
+		if st.ID != nil {
+			m.ElectionId = st.ID.Proto()
+			n++
+		}
+		for _, op := range st.Ops {
+			m.Operation = append(m.Operation, op.Proto())
+		}
+		if len(st.Ops) > 0 {
+			n++
+		}
+		if n < 2 {
+			m = &spb.ModifyRequest{Params: &spb.SessionParameters{Redundancy: 1, Persistence: 1}, ElectionId: &spb.Uint128{Low: 1}}
+		}
+		rs, err = s.SendN(m, 1)
 	case "none":
 		rs, err = s.SendN(&spb.ModifyRequest{}, 1)
 	case "ops":
@@ -492,6 +530,9 @@ func nhExtras(p *aftpb.Afts_NextHop) [][2]uint64 {
 			k = 999
 		}
 		x = append(x, [2]uint64{2, k})
+	}
+	if p.GetPopTopLabel() != nil {
+		x = append(x, [2]uint64{3, map[bool]uint64{true: 1, false: 2}[p.GetPopTopLabel().GetValue()]})
 	}
 	return x
 }
